@@ -65,6 +65,13 @@ CHECKS = {
                      'the armed timers with min(configured, proposed), and the AS_PATH delivered to the handler with the '
                      'capability-65 intersection of this session.',
                 ref='7 C05', note=E1_NOTE),
+    'C04': dict(level='exploration', engine='E2',
+                technique='exhaustive segmentation enumeration (whole, byte-at-a-time, every 1-cut, every 2-cut) of a finite stream set against a reference deframer, with a deterministic work meter',
+                text='Every stream of <= 3 frames over a pool of valid and framing-hostile frames, every length-field value and every '
+                     'type octet is delivered to a freshly established real session under every segmentation of the stated families; '
+                     'all segmentations must give the same callbacks/payloads, bytes written, close decision and buffer, and that '
+                     'outcome must equal the reference deframer\'s; every dataReceived call runs under a step budget linear in the chunk.',
+                ref='7 C04', note=E1_NOTE),
 }
 
 NOT_YET = 'check not built yet in this session (see DESIGN.md section 7 for the plan); not claimed'
